@@ -217,6 +217,13 @@ def _marker_test(c: Term, pol: bool, markers: Set[str]) -> Optional[str]:
     if c[0] in ("attr", "sub", "call") and pol:
         m = _self_attr_of(c)
         return m if m in markers else None
+    # the sentinel form: x = marker.pop(k, S) / marker.get(k, S); `x is S` decided false means there was an entry
+    if c[0] == "cmp" and c[1] in ("is", "is not", "==", "!="):
+        absent_if = pol if c[1] in ("is", "==") else not pol
+        for a, b in ((strip_ver(c[2]), strip_ver(c[3])), (strip_ver(c[3]), strip_ver(c[2]))):
+            if a[0] == "call" and a[1][0] == "attr" and a[1][2] in ("pop", "get") and len(a[2]) == 2 and strip_ver(a[2][1]) == b and not absent_if:
+                m = _self_attr_of(a[1][1])
+                return m if m in markers else None
     return None
 
 
